@@ -61,6 +61,26 @@ pub const CLASS_A: &[(&str, u64)] = &[
     ("dt.rebuild.attempt", 2),
 ];
 
+/// "Failure after the first mutation" sites (class B) plus the primitive-entry sites: armed in
+/// history profiles to put calls that failed deep inside and were rolled back into the middle of
+/// a history (never on Edit-API flips, whose missing rollback is known finding C03-F1).
+pub const CLASS_B: &[&str] = &[
+    "insert.vertex_added.retry", "insert.vertex_added.fatal", "insert.located.retry", "insert.located.fatal",
+    "insert.conflict.retry", "insert.conflict.fatal", "insert.cavity.filled.retry", "insert.cavity.filled.fatal",
+    "insert.cavity.wired.retry", "insert.cavity.wired.fatal", "insert.cavity.removed.retry", "insert.cavity.removed.fatal",
+    "insert.cavity.normalized.retry", "insert.cavity.normalized.fatal", "insert.cavity.connected.retry",
+    "insert.cavity.connected.fatal", "insert.hull.extended.retry", "insert.hull.extended.fatal",
+    "insert.hull.normalized.retry", "insert.hull.normalized.fatal", "insert.hull.connected.retry",
+    "insert.hull.connected.fatal", "insert.bootstrap_simplex.retry", "insert.bootstrap_simplex.fatal",
+    "dt.insert.repair.postcondition", "dt.insert.repair.flip_error", "dt.insert.ridge_links", "dt.insert.orient",
+    "dt.insert.check", "remove.fan_filled", "remove.wired", "remove.cells_removed", "remove.before_normalize",
+    "remove.oriented", "remove.incident_assigned", "remove.vertex_removed", "dt.remove.repair", "repair.after_flip",
+    "repair.budget", "prim.assign_neighbors", "prim.insert_vertex", "prim.insert_cell", "prim.tds_remove_vertex",
+    "prim.assign_incident_cells", "prim.normalize_coherent_orientation", "prim.validate_facet_sharing",
+    "prim.set_neighbors", "prim.normalize_and_promote", "prim.canonicalize_cells",
+    "prim.validate_geometric_orientation", "prim.canonicalize_after_repair",
+];
+
 pub const KNOBS: &[(&str, &[usize])] = &[
     ("locate.max_steps", &[1, 2, 3, 5]),
     ("repair.max_flips", &[0, 1, 2, 4, 16]),
@@ -105,6 +125,9 @@ pub struct Profile {
     /// per-mille probability that a step (or the constructor) runs with one predicate call of
     /// the kernel seam failing (F-kernel)
     pub kernel_fault_permille: u64,
+    /// per-mille probability that an insert / remove / repair step runs with one class-B
+    /// (crash point) or primitive-entry fault armed
+    pub class_b_permille: u64,
 }
 
 impl Default for Profile {
@@ -127,6 +150,7 @@ impl Default for Profile {
             toroidal: false,
             preset_incident_permille: 0,
             kernel_fault_permille: 0,
+            class_b_permille: 0,
             tick_limit: 0,
         }
     }
@@ -382,6 +406,16 @@ pub fn run<K: SimKernel<D>, const D: usize>(
                     for k in first + 1..first + 1 + r.below(3) {
                         faults.push((site.to_string(), k));
                     }
+                }
+            }
+            if profile.class_b_permille > 0
+                && matches!(op, Op::Insert { .. } | Op::Remove { .. } | Op::Repair { .. } | Op::RepairAdv { .. })
+            {
+                let mut br = Rng::sub(rs, "bfault", idx);
+                if br.below(1000) < profile.class_b_permille {
+                    let site = *br.pick(CLASS_B);
+                    let hit = *br.pick(&[0u64, 0, 0, 1, 1, 2, 3, 5, 8]);
+                    faults.push((site.to_string(), hit));
                 }
             }
             if profile.kernel_fault_permille > 0 {
